@@ -24,6 +24,8 @@ EXPLANATION = (
     "__getattr__, so the module-level add path must reject names bound in the module. R-SHARED: all library state is "
     "allocated in __init__; R-FWD: module functions forward to the same-named method of the single module library.")
 EXPLANATION += (' Module-level add_tag is atomic (a rejected name has not been stored). itemize is a pipeline over enumerate(names) / range(len(names)) / zip(names, range(len(names))).')
+EXPLANATION += (' R-DISC: _tag_names, _tag_counter and the instance dictionary are written by TagLibrary.__init__ and add_tag (and their private helpers) only, and __init__ is called by construction only.')
+EXPLANATION += (' The documented error classes are ordinary Exception subclasses whose constructors only store and format (no typed format specifications).')
 ASSUMPTIONS = ["tag names are strings (quantifier)", "instance dict precedes non-data class attributes; module globals precede module __getattr__ (language facts)",
                "single-threaded use"]
 
@@ -93,6 +95,11 @@ def run(cx: Cx):
     elif bad_w is None:
         cx.ok('R-DISC', f"library state is written by __init__ and add_tag only ({n_w} write sites)", where=tl.where, function=tl.qualname)
     cx.floor('tag library write sites', n_w, 5)
+    from .common import check_error_is_plain_exception
+    from .common import check_error_ctor_pure
+    for e_ in ('TagNotFoundError', 'DuplicateTagError'):
+        check_error_is_plain_exception(cx, TL.rsplit('.', 1)[0] + '.' + e_)
+        check_error_ctor_pure(cx, prog.cls(TL.rsplit('.', 1)[0] + '.' + e_))
 
     # ------------------------------------------------------------ clause 2: add_tag
     check_atomic(cx, addt.qualname, ['DuplicateTagError'])
